@@ -41,6 +41,18 @@ func TestC17(t *testing.T) {
 			r.NonTrivial(jsonString(sc))
 		}
 	})
+	// a priority has no share until another one is removed: once RemoveInput has returned the
+	// shares are those of the remaining set and everything written keeps being delivered
+	r.Parallel(t, "v1-share-appears-after-remove", r.Cfg.pick(600, 8000), func(t *testing.T, idx int, rng *rand.Rand) {
+		c := r.prioCase(t, genPrioScenario(rng, prioGen{Vers: []string{"v1"}, Dividers: []string{"fair", "rate", "rate", "hashw", "toprem"}, Mode: "starvedrm"}))
+		if c.res != nil && c.res.Unstarved {
+			r.Count("share_appears_after_remove.scenarios", 1)
+			if c.res.Terminated && c.res.TermWay == "drained" {
+				r.Count("share_appears_after_remove.delivered_to_the_end", 1)
+				r.NonTrivial(jsonString(c.sc))
+			}
+		}
+	})
 }
 
 func TestC19(t *testing.T) {
